@@ -2066,7 +2066,7 @@ def distributed_shampoo(
   quantize_second_moment = (
       best_effort_memory_usage_reduction and
       not compression_rank and not frequent_directions and
-      batch_axis_name)
+      batch_axis_name and not shard_optimizer_states)
 
   # Preconditioner and statistics are both stores as int16 in this mode.
   # We take out the diagonal to make quantization easier.
